@@ -13,13 +13,14 @@ import (
 
 // State is the symbolic machine state at a program point.
 type State struct {
-	pc    Term
-	heap  map[string]Term // component -> current term (absent: initial constant)
-	alloc Term
+	pc     Term
+	heap   map[string]Term // component -> current term (absent: initial constant)
+	alloc  Term
+	binder *heapBinder
 }
 
 func (s *State) clone() *State {
-	n := &State{pc: s.pc, alloc: s.alloc, heap: make(map[string]Term, len(s.heap))}
+	n := &State{pc: s.pc, alloc: s.alloc, heap: make(map[string]Term, len(s.heap)), binder: s.binder}
 	for k, v := range s.heap {
 		n.heap[k] = v
 	}
@@ -47,6 +48,7 @@ type Engine struct {
 	condSets map[string]condSetInfo
 	privGlobals []string
 	condHandles map[string]condHandle
+	recFns map[string]*recInfo
 	privFields  map[string]string // field component -> package path, for unexported fields
 }
 
@@ -146,7 +148,20 @@ func (e *Engine) get(st *State, comp string) Term {
 	if t, ok := st.heap[comp]; ok {
 		return t
 	}
+	if st.binder != nil {
+		// heap-parametric evaluation (recursive spec functions): the component is a bound variable
+		n := sym(fmt.Sprintf("hq$%d", len(st.binder.comps)))
+		st.binder.comps = append(st.binder.comps, comp)
+		st.binder.names = append(st.binder.names, n)
+		st.heap[comp] = n
+		return n
+	}
 	return sym(comp + "@0")
+}
+
+type heapBinder struct {
+	comps []string
+	names []string
 }
 
 // ---- heap components ----
